@@ -540,6 +540,12 @@ def render_all_lenient(m: MDoc, max_combos: int, rng: random.Random, exclude_kin
         return
     n = 1
     yield render_lenient(m, {})
+    # every site deviating at once (variant j everywhere, clipped): reaches all sites within a small budget
+    for j in range(1, max(len(s.variants) for s in sites)):
+        if n >= max_combos:
+            return
+        n += 1
+        yield render_lenient(m, {s.id: s.variants[min(j, len(s.variants) - 1)] for s in sites})
     for s in sites:
         for v in s.variants[1:]:
             if n >= max_combos:
@@ -1036,6 +1042,22 @@ def _stage_zones() -> Iterator[MDoc]:
                 yield MDoc(body=_wrap(nodes, container), label=f"zone assignment in {container} before={before} after={after}")
 
 
+def _stage_line_bookkeeping() -> Iterator[MDoc]:
+    """a token that spans lines, or contains a character some line-splitting routines treat as a line break,
+    followed by nodes that carry lenient rewrite sites (operators, quotable/multi-word strings, lists): every
+    later position (receipts, errors) depends on the reader counting \\n and nothing else"""
+    seps = ["\r", "\x0b", "\x0c", "\x1c", "\x1d", "\x1e", "\x85", "\u2028", "\u2029", "\r\n"]
+    tail = [MAssign("F", MRaw("A→B→C", "A→B→C")), MAssign("W", S("multi word value")), MAssign("L", MList([S("a"), S("x y"), MRaw("P⊕Q", "P⊕Q")])), MBlock("B", None, [MAssign("T", MRaw("X⇌Y", "X⇌Y"))])]
+    for sp in seps:
+        yield MDoc(body=[MAssign("S", S(f"a{sp}b{sp}"))] + tail, label=f"string with {sp!r} then rewrite sites")
+        yield MDoc(body=[MAssign("S", MList([S(f"p{sp}q"), S("r")]))] + tail, label=f"list item with {sp!r} then rewrite sites")
+        if "\n" not in sp and "\r" not in sp:
+            yield MDoc(body=[MComment(f"note{sp}more")] + tail, label=f"comment with {sp!r} then rewrite sites")
+    yield MDoc(body=[MAssign("S", S("line1\nline2\nline3"))] + tail, label="multi-line string then rewrite sites")
+    yield MDoc(body=[MAssign("Z", MZone("l1\nl2\n\nl4", None, "```"))] + tail, label="zone then rewrite sites")
+    yield MDoc(body=[MAssign("Z", MZone("a\u2028b\x0cc\rd", "t", "````"))] + tail, label="zone with separators then rewrite sites")
+
+
 # -- structural trees: leaf A, containers B (block) / S (section)
 
 
@@ -1088,7 +1110,7 @@ def documents(max_depth: int = 2, max_siblings: int = 2, seed: int = 0, limit: i
     them when they fit in what is left of `limit`, else a seeded random sample. Deterministic per seed."""
     rng = random.Random(seed)
     n = 0
-    for stage in (_stage_values, _stage_keys, _stage_envelope, _stage_comments, _stage_dups, _stage_sections_blocks, _stage_zones):
+    for stage in (_stage_values, _stage_keys, _stage_envelope, _stage_comments, _stage_dups, _stage_sections_blocks, _stage_zones, _stage_line_bookkeeping):
         for d in stage():
             if n >= limit:
                 return
